@@ -6,6 +6,9 @@
 //               the WAL (possible only if offset allocation and append are not atomic: O-1)
 //   early-ack   the follower's ack of offset X is delivered before the sync callback of X advances the
 //               head offset (O-8 window)
+//   apply-gate  the application of offset n is held inside the KV layer (batch.Commit) while another
+//               follower's ack for n+1 is delivered: n+1 must be observed WAITING (the tracker applies the
+//               released requests one after the other under its mutex)
 // There is no model for this leg; the specification is evaluated directly on what the leader did:
 // every write succeeds, responses carry the caller's own entry, offsets are distinct, the WAL is
 // contiguous, effects are applied in offset order, commit is monotone and never above head.
@@ -49,11 +52,74 @@ type gates struct {
 	cbEntered chan struct{}
 	ackDone   chan struct{}
 	cbForced  int32
+	// apply-gate: the batch that puts holdKey is held in Commit; a Commit of the batch that puts watchKey is reported
+	holdKey        string
+	watchKey       string
+	holdEntered    chan struct{}
+	holdRelease    chan struct{}
+	watchAttempted chan struct{}
+	onceEntered    sync.Once
+	onceWatch      sync.Once
 }
 
 func newGates() *gates {
 	return &gates{holdAt: map[int64]bool{}, appendCh: make(chan struct{}, 1<<16), cbHold: -1,
-		cbEntered: make(chan struct{}), ackDone: make(chan struct{})}
+		cbEntered: make(chan struct{}), ackDone: make(chan struct{}),
+		holdEntered: make(chan struct{}), holdRelease: make(chan struct{}), watchAttempted: make(chan struct{})}
+}
+
+// ---------------------------------------------------------------- gated KV
+
+type gateKVFactory struct {
+	kv.Factory
+	g *gates
+}
+
+func (f *gateKVFactory) NewKV(ns string, shard int64) (kv.KV, error) {
+	k, err := f.Factory.NewKV(ns, shard)
+	if err != nil {
+		return nil, err
+	}
+	return &gateKV{KV: k, g: f.g}, nil
+}
+
+type gateKV struct {
+	kv.KV
+	g *gates
+}
+
+func (k *gateKV) NewWriteBatch() kv.WriteBatch {
+	return &gateBatch{WriteBatch: k.KV.NewWriteBatch(), g: k.g}
+}
+
+type gateBatch struct {
+	kv.WriteBatch
+	g           *gates
+	hold, watch bool
+}
+
+func (b *gateBatch) Put(key string, value []byte) error {
+	if b.g.holdKey != "" && key == b.g.holdKey {
+		b.hold = true
+	}
+	if b.g.watchKey != "" && key == b.g.watchKey {
+		b.watch = true
+	}
+	return b.WriteBatch.Put(key, value)
+}
+
+func (b *gateBatch) Commit() error {
+	if b.watch {
+		b.g.onceWatch.Do(func() { close(b.g.watchAttempted) })
+	}
+	if b.hold {
+		b.g.onceEntered.Do(func() { close(b.g.holdEntered) })
+		select {
+		case <-b.g.holdRelease:
+		case <-time.After(5 * time.Second):
+		}
+	}
+	return b.WriteBatch.Commit()
 }
 
 type gateFactory struct {
@@ -135,6 +201,7 @@ type follower struct {
 	opened   chan struct{}
 	openOnce sync.Once
 	g        *gates
+	manual   bool  // acks are handed out by the scenario (ack), not automatically
 	sendHold int64 // Send of this offset is held until the gated callback has been entered
 	lastOut  int64 // last ack handed to the leader by Recv
 	received []int64
@@ -152,8 +219,29 @@ func (f *follower) Send(a *proto.Append) error {
 	f.mu.Lock()
 	f.received = append(f.received, off)
 	f.mu.Unlock()
-	f.acks <- &proto.Ack{Offset: off}
+	if !f.manual {
+		f.acks <- &proto.Ack{Offset: off}
+	}
 	return nil
+}
+
+func (f *follower) ack(off int64) { f.acks <- &proto.Ack{Offset: off} }
+
+func (f *follower) hasReceived(off int64) bool {
+	f.mu.Lock()
+	defer f.mu.Unlock()
+	return int64(len(f.received)) > off
+}
+
+func waitFor(cond func() bool, d time.Duration) bool {
+	deadline := time.Now().Add(d)
+	for !cond() {
+		if time.Now().After(deadline) {
+			return false
+		}
+		time.Sleep(200 * time.Microsecond)
+	}
+	return true
 }
 
 func (f *follower) Recv() (*proto.Ack, error) {
@@ -212,6 +300,7 @@ type scenario struct {
 	holdAt    []int64 // o1 gates
 	earlyAck  int64   // offset for the early-ack gate, -1 = none
 	asyncPair bool    // issue the writes back to back through the async API (early-ack scenario)
+	applyGate bool    // hold the application of offset puts-2 while the ack for puts-1 of the other follower is delivered
 }
 
 type writeRes struct {
@@ -258,8 +347,14 @@ func runScenario(o *hx.Out, sc scenario, tmpRoot string, idx int) {
 		g.holdAt[h] = true
 	}
 	g.cbHold = sc.earlyAck
-	kvf, err := kv.NewPebbleKVFactory(&kv.FactoryOptions{InMemory: true, CacheSizeMB: 1, DataDir: dir + "/db"})
+	kvInner, err := kv.NewPebbleKVFactory(&kv.FactoryOptions{InMemory: true, CacheSizeMB: 1, DataDir: dir + "/db"})
 	hx.Must(err)
+	var kvf kv.Factory = kvInner
+	if sc.applyGate {
+		g.holdKey = fmt.Sprintf("w0-%d", sc.puts-2)
+		g.watchKey = fmt.Sprintf("w0-%d", sc.puts-1)
+		kvf = &gateKVFactory{Factory: kvInner, g: g}
+	}
 	wf := &gateFactory{inner: wal.NewWalFactory(&wal.FactoryOptions{BaseWalDir: dir + "/wal", SegmentSize: 256 * 1024,
 		Retention: time.Hour, SyncData: sc.syncData}), g: g}
 	prov := &provider{followers: map[string]*follower{}}
@@ -267,7 +362,7 @@ func runScenario(o *hx.Out, sc scenario, tmpRoot string, idx int) {
 	for i := uint32(1); i < sc.rf; i++ {
 		n := fmt.Sprintf("f%d", i)
 		f := &follower{name: n, acks: make(chan *proto.Ack, 1<<16), opened: make(chan struct{}), g: g, sendHold: -1, lastOut: -1,
-			ctx: context.Background()}
+			ctx: context.Background(), manual: sc.applyGate}
 		if i == 1 && sc.earlyAck > 0 {
 			f.sendHold = sc.earlyAck - 1
 		}
@@ -335,7 +430,75 @@ func runScenario(o *hx.Out, sc scenario, tmpRoot string, idx int) {
 	results := make([]writeRes, 0, total)
 	var rmu sync.Mutex
 	var wg sync.WaitGroup
-	if sc.asyncPair {
+	if sc.applyGate {
+		fa, fb := prov.followers["f1"], prov.followers["f2"]
+		n := int64(sc.puts - 2)
+		issue := func(i int) chan writeRes {
+			key := fmt.Sprintf("w0-%d", i)
+			ch := make(chan writeRes, 1)
+			lc.Write(context.Background(), &proto.WriteRequest{Shard: &shard, Puts: []*proto.PutRequest{
+				{Key: key, Value: []byte(key)}, {Key: "shared", Value: []byte(key)}}},
+				concurrent.NewOnce(func(r *proto.WriteResponse) {
+					ch <- writeRes{key: key, version: r.Puts[0].Version.VersionId, sharedV: r.Puts[1].Version.VersionId,
+						sharedM: r.Puts[1].Version.ModificationsCount, status: r.Puts[0].Status}
+				}, func(err error) { ch <- writeRes{key: key, err: err} }))
+			return ch
+		}
+		collect := func(i int, ch chan writeRes) {
+			select {
+			case r := <-ch:
+				results = append(results, r)
+			case <-time.After(stuckTimeout):
+				results = append(results, writeRes{key: fmt.Sprintf("w0-%d", i), stuck: true})
+			}
+		}
+		realised := true
+		// warm-up writes 0..n-1, acknowledged by both followers one after the other
+		for i := int64(0); i < n && realised; i++ {
+			ch := issue(int(i))
+			realised = waitFor(func() bool { return fa.hasReceived(i) && fb.hasReceived(i) }, 3*time.Second)
+			fa.ack(i)
+			fb.ack(i)
+			collect(int(i), ch)
+		}
+		// two writes in flight: n and n+1, synced on the leader, sent to both followers, nobody acked yet
+		chX := issue(int(n))
+		chY := issue(int(n + 1))
+		realised = realised && waitFor(func() bool {
+			h, _, _ := server.VerifLeaderOffsets(lc)
+			return h >= n+1 && fa.hasReceived(n+1) && fb.hasReceived(n+1)
+		}, 3*time.Second)
+		schedule := fmt.Sprintf("rf=3, offsets %d and %d appended, synced and sent to f1,f2; f1 acks %d => ProcessWrite(%d) starts and is held in batch.Commit; f2 acks %d,%d",
+			n, n+1, n, n, n, n+1)
+		// follower A acks n: the leader starts applying n, held inside the KV layer
+		fa.ack(n)
+		entered := false
+		select {
+		case <-g.holdEntered:
+			entered = true
+		case <-time.After(3 * time.Second):
+		}
+		if realised && entered {
+			// follower B acks n and n+1 while n is being applied
+			fb.ack(n)
+			fb.ack(n + 1)
+			select {
+			case <-g.watchAttempted:
+				viol("pipeline:applied-out-of-order", fmt.Sprintf("%s => the application of offset %d (batch.Commit) started while the application of offset %d had not finished",
+					schedule, n+1, n))
+			case <-time.After(gateTimeout):
+				o.Count("gate:apply-held(next offset observed waiting)")
+			}
+		} else {
+			o.Count("gate:apply-gate-not-realised")
+			fb.ack(n)
+			fb.ack(n + 1)
+		}
+		close(g.holdRelease)
+		fa.ack(n + 1)
+		collect(int(n), chX)
+		collect(int(n+1), chY)
+	} else if sc.asyncPair {
 		// all writes of a "writer" are issued back to back without waiting for the previous response
 		for w := 0; w < sc.writers; w++ {
 			for i := 0; i < sc.puts; i++ {
@@ -507,7 +670,7 @@ func runScenario(o *hx.Out, sc scenario, tmpRoot string, idx int) {
 		fmt.Sprintf("%s/%d/%v/%d/%d/%d", sc.name, sc.rf, sc.syncData, sc.writers, sc.puts, idx))
 
 	_ = lc.Close()
-	_ = kvf.Close()
+	_ = kvInner.Close()
 	_ = wf.Close()
 }
 
@@ -547,5 +710,7 @@ func main() {
 		// forced: follower ack overtakes the head advance
 		x := int64(1 + r.Intn(5))
 		run(scenario{name: "early-ack", rf: 2, syncData: true, writers: 1, puts: int(x) + 1, earlyAck: x, asyncPair: true})
+		// forced: offset n is being applied while the other follower acknowledges n+1
+		run(scenario{name: "apply-gate", rf: 3, syncData: r.Bool(), writers: 1, puts: 2 + r.Intn(4), earlyAck: -1, applyGate: true})
 	}
 }
